@@ -142,8 +142,12 @@ impl World {
         self.index_ops.push(IndexOp::Put(r.key(), r.value()));
     }
     /// Place block in file `n` and index it as an active-chain block.
+    /// Status as Bitcoin Core writes it for a connected block; odd heights additionally carry BLOCK_OPT_WITNESS (0x80, every
+    /// block since segwit activation has it) and heights = 3 mod 4 the reserved bit 0x100 - flags that say nothing about
+    /// whether the block belongs to the active chain or where its data is.
     pub fn add_block(&mut self, n: u64, height: u64, b: &Block) -> IndexRec {
-        self.add_block_status(n, height, b, if height == 0 { VALID_SCRIPTS | HAVE_DATA } else { ACTIVE })
+        let extra = if height % 2 == 1 { OPT_WITNESS } else { 0 } | if height % 4 == 3 { 0x100 } else { 0 };
+        self.add_block_status(n, height, b, if height == 0 { VALID_SCRIPTS | HAVE_DATA } else { ACTIVE | extra })
     }
     pub fn add_block_status(&mut self, n: u64, height: u64, b: &Block, status: u64) -> IndexRec {
         let raw = b.ser();
@@ -178,6 +182,25 @@ impl World {
         } else {
             World::interleaved(coin, chain, first_height)
         }
+    }
+
+    /// A never-connected record (VALID_TRANSACTIONS | HAVE_DATA, pointing into a blk file that does not exist) at the height
+    /// of `active`, whose KEY agrees with the active block's hash in part: variant 0 the first 8 bytes, 1 the last 8 bytes,
+    /// 2 all but the last byte (sorts right next to it), 3 all but the first byte, 4 eight zero bytes followed by the active
+    /// hash's tail. Its header is the active header with another nonce. (Real index keys are header hashes, where such
+    /// agreement costs 2^64 work; nothing an implementation does with the keys may depend on that.)
+    pub fn add_key_twin(&mut self, active: &IndexRec, variant: u8) {
+        let mut k = active.hash;
+        match variant % 5 {
+            0 => k[8..].iter_mut().for_each(|b| *b = !*b),
+            1 => k[..24].iter_mut().for_each(|b| *b = !*b),
+            2 => k[31] ^= 1,
+            3 => k[0] ^= 0x80,
+            _ => k[..8].iter_mut().for_each(|b| *b = 0),
+        }
+        let mut header = active.header;
+        header[76] ^= 0x55;
+        self.put_rec(&IndexRec { hash: k, client_version: 270000, height: active.height, status: VALID_TRANSACTIONS | HAVE_DATA, ntx: 1, file: 4242, data_pos: 8, undo_pos: 0, header });
     }
 
     /// Canonical description (content-addressed identity and replay payload).
